@@ -102,6 +102,31 @@ def Elem.offset : Elem → Option Nat
   | .enum _ _ o _ _ => o
   | .set _ _ o _ _ => o
 
+/-! ### the layout steps of the validator
+
+  The arithmetic of `validate_element_offset`, `validate_field_offset` and
+  `validate_block_length` as pure step functions.  `Lemmas/ValidatorLayoutTie.lean`
+  proves them equal to the definitions `extract/validator_layout.py` regenerates
+  from `sbe_schema_validator.hpp` on every run. -/
+
+/-- message of the two layout diagnostics of sbeppc; `tag` = the leading words of the `throw_error` format string -/
+def layoutMsg (tag : String) (a b : Nat) : String := s!"{tag} ({a}) is less than minimum possible ({b})"
+
+/-- the offset `validate_element_offset` / `validate_field_offset` store for an element
+    (`offset_in_composite`, `level_offset`): the custom offset if there is one — it must not be below the
+    running offset —, else the running offset -/
+def storedOffset (custom : Option Nat) (cur : Nat) : Except String Nat :=
+  match custom with
+  | some o => if o < cur then Except.error (layoutMsg "custom offset" o cur) else .ok o
+  | none => .ok cur
+
+/-- one whole step of `validate_element_offset` / `validate_field_offset` on a non-constant element of
+    size `size`: the stored offset and the new running offset (stored offset + size) -/
+def offsetStep (custom : Option Nat) (cur size : Nat) : Except String (Nat × Nat) :=
+  match storedOffset custom cur with
+  | .error err => .error err
+  | .ok off => .ok (off, off + size)
+
 mutual
   /-- size and leaves (with absolute offsets from `base`) of one encoding -/
   def elemLeaves (types : List Elem) : Nat → List String → Nat → Elem → Except String (Nat × List NLeaf)
@@ -141,9 +166,8 @@ mutual
         | .error err => .error err
         | .ok _ => compLeaves types fuel path base cur rest
       else
-        match (match e.offset with
-               | some o => if o < cur then Except.error s!"custom offset ({o}) is less than minimum possible ({cur})" else .ok o
-               | none => .ok cur) with
+        -- `validate_element_offset`: `offsetStep e.offset cur sz = .ok (off, off + sz)` (`compLeaves_step`)
+        match storedOffset e.offset cur with
         | .error err => .error err
         | .ok off =>
           match elemLeaves types fuel (path ++ [e.name]) (base + off) e with
@@ -177,9 +201,8 @@ def fieldLeaves (types : List Elem) : Nat → List FieldDef → Except String (N
       | some (.composite _ _ _ _) => .error "composite field can't be a constant"
       | _ => fieldLeaves types cur rest
     else
-      let off ← (match f.offset with
-                 | some o => if o < cur then Except.error s!"custom offset ({o}) is less than minimum possible ({cur})" else .ok o
-                 | none => .ok cur)
+      -- `validate_field_offset`: `offsetStep f.offset cur sz = .ok (off, off + sz)` (`fieldLeaves_step`)
+      let off ← storedOffset f.offset cur
       let (sz, lv) ← (if isPrimitive f.type then
                         let ps := (primSize? f.type).getD 0
                         Except.ok (ps, [{ path := [f.name], off := off, size := ps, prim := f.type, count := 1, kind := "type" : NLeaf }])
@@ -223,10 +246,16 @@ def resolveData (types : List Elem) (d : DataDef) : Except String NData :=
   | some _ => .error s!"data header encoding `{d.type}` is not a composite"
   | none => .error s!"data header encoding `{d.type}` doesn't exist"
 
+/-- `validate_block_length` as a pure step (the "blockLength step" of the validator): the stored
+    `actual_block_length` — the custom `blockLength` if there is one (it must not be below the computed one), else
+    the computed one.  Tied to the C++ text by `Lemmas/ValidatorLayoutTie.lean`. -/
 def blockLength (custom : Option Nat) (computed : Nat) : Except String Nat :=
   match custom with
-  | some b => if b < computed then .error s!"custom `blockLength` ({b}) is less than minimum possible ({computed})" else .ok b
+  | some b => if b < computed then .error (layoutMsg "custom `blockLength`" b computed) else .ok b
   | none => .ok computed
+
+/-- the name under which the tie theorems refer to it -/
+abbrev blockLengthStep := @blockLength
 
 mutual
   def resolveGroups (types : List Elem) : List GroupDef → Except String (List NGroup)
